@@ -30,7 +30,8 @@ Definition odd_ops : scalar_ops :=
                                  | _ => Ok PUndef end)
                            | _ => Ok PUndef end;
      s_output := fun v => match v with
-                          | PInt z => if Z.odd z then Ok (PInt z) else Raise ValueError
+                          | PInt z => if Z.eqb z 99 then Ok PNone          (* a null produced during result coercion *)
+                                      else if Z.odd z then Ok (PInt z) else Raise ValueError
                           | _ => Raise ValueError end |}.
 
 Definition std_scalars (n : string) : option scalar_ops :=
